@@ -189,3 +189,38 @@ def run(ctx):
         ctx.covered("J_triple", tuple(trip[s] if s in subset else None for s in range(3)))
         if i < ctx.nshards:
             ctx.sample({"config": card["config"], "event0": [p[0] for p in ps], "lib_density": f[0], "closed_form": ref[0]}, limit=2)
+
+
+    # ------------------------------------------------------------ spin scans that RE-USE the particle names within one process
+    # (a J = 0..4 scan of one resonance, as a spin-parity hypothesis test does): the k-th model must not see anything of the
+    # models built before it under the same names
+    n_scan = ctx.pick(8, 120)
+    for i, rng in ctx.cases("name_reuse", n_scan, budget_s=ctx.pick(200, 1500)):
+        tag = "_c04scan%d_%d" % (ctx.seed, i)
+        slot = int(rng.integers(0, 3))
+        parity_mode = "strong" if i % 2 else "weak"
+        order = [int(x) for x in rng.permutation(5)]
+        state = rng.bit_generator.state
+        for step, J in enumerate(order):
+            # same generator state for every step: same masses / names / options, only the spin differs
+            rng.bit_generator.state = state
+            card = build_card(rng, tag, {slot: [J]}, parity_mode)
+            meta = card["meta"]
+            try:
+                cfg = cards.load(card)
+                amp = cfg.get_amplitude()
+                amp.set_params(cards.random_params(amp, (ctx.seed, i)))
+                params = {k: float(v) for k, v in amp.get_params().items()}
+                couplings(meta, params)
+                ps = cards.events(card, 80, rng, classes=True)
+                f, _ = cards.density(cfg, ps)
+            except Exception as e:
+                ctx.violation("density == closed form", ctx.exc_witness(e, config=card["config"], scan=order, step=step), mechanism="name re-use scan raises")
+                continue
+            ref = reference_density(meta, params, ps)
+            tol = 1e-8 * (np.abs(ref) + 1e-3 * np.median(ref))
+            worst = float(np.max(np.abs(f - ref) / tol))
+            ctx.check("density == closed form", worst <= 1.0, lambda: {"config": card["config"], "scan_order_of_J": order, "step": step, "J": J, "worst_ratio": worst},
+                      mechanism="closed form after the same names were used with another spin")
+            ctx.case(("scan", i, step, J), nontrivial=step > 0)
+            ctx.covered("name_reuse_step", step)
